@@ -629,6 +629,10 @@ class Workspace(AbstractContextManager):
             entity.concatenator.remove_children([entity])
             return
 
+        if isinstance(entity, ConcatenatedData):
+            entity.parent.remove_children([entity])
+            return
+
         if isinstance(entity, (Concatenated, ConcatenatedPropertyGroup)):
             entity.concatenator.remove_entity(entity)
             return
